@@ -52,6 +52,26 @@ CHECKS["C19"] = ("per shared component: hook-linearized concurrent traces valida
     "coverage.skipped in the evidence.",
     "DESIGN.md section 4 C19")
 
+CHECKS["C09"] = ("TLC-generated configuration universe (ReloadCfgGen.tla) loaded into a real OutlineServer; every (listener, key) pair probed with "
+    "real TCP handshakes and UDP datagrams; measured relation compared by TLC (ReloadTrace.tla) with Reload!Serving(cfg)",
+    "Reload.tla defines what a configuration serves: per service the de-duplicated key list (first id wins for equal cipher+secret) on "
+    "exactly its listeners, per legacy port its keys on tcp+udp. TLC builds configurations from a bounded universe (sampled in quick, "
+    "exhaustively enumerated for a smaller universe in thorough); each is loaded by the real loadConfig inside package main and all "
+    "listener x key-class pairs of the universe are probed over both protocols; attribution is read from the metrics interface.",
+    "Bounded universe (3 service addresses x tcp/udp, 2 legacy ports, 5 usable keys incl. one duplicate cipher+secret under a second id). "
+    "Attribution among duplicate keys of one LEGACY port is not specified by the property and not generated.",
+    "DESIGN.md section 4 C09")
+CHECKS["C10"] = ("TLC exhaustive check of Reload.tla (all load sequences x every fault point) + TLC-simulated load sequences executed on a real "
+    "OutlineServer with injected faults; listener/key matrix and runConfig goroutines measured after every attempt and judged by "
+    "ReloadTrace.tla",
+    "loadConfig/runConfig/Stop are specified as a flat sequence of separately failing steps over a listener manager; TLC checks that at "
+    "every quiescent point exactly the last good configuration serves and listens and exactly one runConfig goroutine exists, for all "
+    "sequences of <=3-4 attempts over a 12-configuration catalogue with every fault point (unreadable, malformed, invalid, bad cipher "
+    "in legacy / 1st / 2nd service, bind failure at any listener). The pinned variant (failed start leaves a zombie generation) is "
+    "the negative control. The same scenarios run against the real code with foreign sockets injecting the bind failures.",
+    "Fault points are those reachable through files and sockets; goroutine accounting matches on the function name runConfig.func1.",
+    "DESIGN.md section 4 C10")
+
 PENDING = {}
 
 def main():
